@@ -39,7 +39,7 @@ import itertools, json, os, re
 from vlib import treegen as tg, paths
 from checks import c06
 
-LEAN_TARGETS = ["LyModel.Props.C13", "LyModel.Props.C13Merge", "LyModel.Props.C13Tree", "LyModel.Props.C13RevUO"]
+LEAN_TARGETS = ["LyModel.Props.C13", "LyModel.Props.C13Merge", "LyModel.Props.C13Tree", "LyModel.Props.C13RevUO", "LyModel.Props.C13RevUOTree"]
 AUDIT = "Audit/C13.lean"
 GENERATED = ["Diff13"]
 HARNESS = "api_diff13"
